@@ -29,7 +29,7 @@ func commonRules(p *core.Prog, r *core.Run, id string) {
 var crossIncludes = map[string][]struct{ other, from, as string }{
 	"C01": {{"C11", "C11.GRAMMAR", "C01.keys.config"}, {"C11", "C11.SAFE", "C01.keys.config.safe"}},
 	"C02": {{"C01", "C01.tables", "C02.tables"}, {"C05", "C05.P2", "C02.A6.parse"}, {"C11", "C11.GRAMMAR", "C02.A4.config"}, {"C11", "C11.SAFE", "C02.A4.config.safe"}},
-	"C03": {{"C05", "C05.P2", "C03.S3.parse.bytes"}},
+	"C03": {{"C05", "C05.P2", "C03.S3.parse.bytes"}, {"C07", "C07.B2", "C03.S5.delivered"}},
 	"C05": {{"C01", "C01.tables", "C05.P3.hpke"}, {"C08", "C08.I6", "C05.P6.nil"}, {"C07", "C07.B4", "C05.P4.census"}},
 	"C04": {{"C10", "C10", "C04.ALERT.deliver.ctx"}, {"C02", "C02.A6", "C04.AUTH.aad"}},
 	"C07": {{"C08", "C08.I1", "C07.SAFE"}, {"C01", "C01.tables", "C07.B5.serverhello"}, {"C08", "C08.I6", "C07.SAFE.nil"}},
@@ -460,7 +460,35 @@ func globalsReadOnly(p *core.Prog, r *core.Run, rule string) {
 						n++
 						r.Check(rule, fmt.Sprintf("mapupdate:%s@%s#%d", g.Name(), p.FuncName(root), n), false, p.InstrPos(x), "%s updates the package-level map %s after initialisation", p.FuncName(root), g.Name())
 					}
+				case *ssa.Send:
+					if g := fromGlobal(x.Chan); inMod(g) {
+						n++
+						r.Check(rule, fmt.Sprintf("send:%s@%s#%d", g.Name(), p.FuncName(root), n), false, p.InstrPos(x), "%s sends on the package-level channel %s: what one connection, lookup or call hands over there another one receives", p.FuncName(root), g.Name())
+					}
+				case *ssa.Select:
+					for _, st := range x.States {
+						if g := fromGlobal(st.Chan); inMod(g) {
+							n++
+							r.Check(rule, fmt.Sprintf("select:%s@%s#%d", g.Name(), p.FuncName(root), n), false, p.InstrPos(x), "%s communicates over the package-level channel %s: what one connection, lookup or call hands over there another one receives", p.FuncName(root), g.Name())
+						}
+					}
 				case *ssa.Call:
+					if c := x.Call.StaticCallee(); c != nil && len(x.Call.Args) > 0 && matches(`\(\*sync\.Map\)\.(Store|LoadOrStore|LoadAndDelete|Swap|CompareAndSwap|CompareAndDelete|Delete|Clear)|sync/atomic\.(Add|Store|Swap|CompareAndSwap|And|Or).*|\(\*sync/atomic\.\w+(\[.*\])?\)\.(Add|Store|Swap|CompareAndSwap|And|Or)`, c.String()) {
+						if g := fromGlobal(x.Call.Args[0]); inMod(g) {
+							n++
+							r.Check(rule, fmt.Sprintf("shared:%s@%s#%d", g.Name(), p.FuncName(root), n), false, p.InstrPos(x), "%s updates the package-level %s (%s) after initialisation", p.FuncName(root), g.Name(), c.String())
+						}
+					}
+					// a container kept in a package-level variable and filled at run time
+					// (a cache, a memo, a free list) is state shared by everything in the
+					// process: connections, lookups and calls stop being independent
+					if c := x.Call.StaticCallee(); c != nil && len(x.Call.Args) > 0 && !inModule(p, c) &&
+						matches(`^(Add|Put|Set|Store|Push|PushBack|PushFront|Insert|Remove|RemoveOldest|Delete|Purge|Resize|Clear|ContainsOrAdd|PeekOrAdd|LoadOrStore|Enqueue|Append)(\[.*\])?$`, c.Name()) {
+						if g := fromGlobal(x.Call.Args[0]); inMod(g) {
+							n++
+							r.Check(rule, fmt.Sprintf("container:%s@%s#%d", g.Name(), p.FuncName(root), n), false, p.InstrPos(x), "%s changes the package-level container %s (%s) after initialisation", p.FuncName(root), g.Name(), c.Name())
+						}
+					}
 					if c := x.Call.StaticCallee(); c != nil && (c.String() == "(*sync.Pool).Get" || c.String() == "(*sync.Pool).Put") {
 						n++
 						r.Check(rule, fmt.Sprintf("pool@%s#%d", p.FuncName(root), n), false, p.InstrPos(x), "%s recycles memory through a sync.Pool: decoded messages, results and hellos keep views into the buffers they were made from", p.FuncName(root))
@@ -470,4 +498,49 @@ func globalsReadOnly(p *core.Prog, r *core.Run, rule string) {
 		}
 	}
 	r.Check(rule, "census", n == 0, "-", "writes to package-level state after initialisation and pool uses in the module's library packages: %d", n)
+}
+
+// receiverReadOnly: the methods of a configuration object (a Dialer, a
+// Transport) that run per call leave the object as they found it: no store
+// through the receiver, no mutating call on one of its fields. What one call
+// remembers in the object the next call acts on (a "last good" target, a
+// cached list), so calls stop being a function of their arguments.
+func receiverReadOnly(p *core.Prog, r *core.Run, rule string, roots ...*ssa.Function) {
+	nFn, nBad := 0, 0
+	for _, root := range roots {
+		if root == nil || root.Signature.Recv() == nil || len(root.Params) == 0 {
+			continue
+		}
+		recv := root.Params[0]
+		for _, fn := range core.Closures(root) {
+			nFn++
+			for _, b := range fn.Blocks {
+				for _, in := range b.Instrs {
+					why := ""
+					if fn == root {
+						why = writesThrough(p, in, recv)
+					} else if st, ok := in.(*ssa.Store); ok && p.CellRoot(st.Addr) == nil {
+						a := p.X(st.Addr)
+						if a.Op != "param" && !localCopy(a) && a.Any(func(e *core.Expr) bool { return e.Val == ssa.Value(recv) }) {
+							why = "store to " + short(a)
+						}
+					}
+					if c, ok := in.(*ssa.Call); ok && why == "" {
+						if sc := c.Call.StaticCallee(); sc != nil && len(c.Call.Args) > 0 && !inModule(p, sc) &&
+							matches(`^(Add|Put|Set|Store|Push|PushBack|PushFront|Insert|Remove|RemoveOldest|Delete|Purge|Resize|Clear|ContainsOrAdd|PeekOrAdd|LoadOrStore|LoadAndDelete|Swap|CompareAndSwap|Enqueue|Append)(\[.*\])?$`, sc.Name()) {
+							a := p.X(c.Call.Args[0])
+							if a.Any(func(e *core.Expr) bool { return e.Val == ssa.Value(recv) }) && !a.Any(func(e *core.Expr) bool { return e.Op == "new" }) {
+								why = sc.Name() + " on " + short(a)
+							}
+						}
+					}
+					if why != "" {
+						nBad++
+						r.Check(rule, fmt.Sprintf("%s:keeps-state#%d", p.FuncName(root), nBad), false, p.InstrPos(in), "%s changes the object it is called on (%s): a later call behaves differently for it", p.FuncName(fn), why)
+					}
+				}
+			}
+		}
+	}
+	r.Check(rule, "receiver-read-only", nBad == 0 && nFn >= 1, "-", "functions examined: %d; writes to the receiver's state: %d", nFn, nBad)
 }
